@@ -61,12 +61,20 @@ func (b *tbBackend) CreateGame(opts *pokerface.GameOptions) (*pokerface.GameStat
 	deck := g.GetState().Meta.Deck
 	b.r.rng.Shuffle(len(deck), func(i, j int) { deck[i], deck[j] = deck[j], deck[i] })
 	wild := b.r.rng.Chance(0.3) // a hand that tends to bust somebody
+	switch b.r.policy {
+	case "w":
+		wild = true
+	case "c":
+		wild = false
+	}
 	for i := 0; i < 4000 && g.GetState().Status.CurrentEvent != "GameClosed"; i++ {
 		op := expectedOp(b.r.rng, g.GetState(), wild)
 		if op.seat >= 0 {
 			op.seat = -1
 		}
-		if wild && op.kind == "act" && (op.act == "bet" || op.act == "raise") && b.r.rng.Chance(0.5) {
+		if b.r.policy == "w" || b.r.policy == "c" {
+			op = fixedPlay(g.GetState(), b.r.policy == "w")
+		} else if wild && op.kind == "act" && (op.act == "bet" || op.act == "raise") && b.r.rng.Chance(0.5) {
 			op = opSpec{kind: "act", seat: -1, act: "allin"}
 		}
 		applyOp(g, op)
@@ -145,6 +153,7 @@ func snapSMPlayers(m *sm.SeatManager) *smSnap {
 }
 
 type tbRunner struct {
+	policy  string // how the next hand is played: "" / "r" drawn, "w" everybody shoves, "c" checked / called down
 	o       *Out
 	t       table.VerifTable
 	be      *tbBackend
@@ -326,6 +335,10 @@ func (r *tbRunner) exec(f []string) {
 		case "setup":
 			err = r.t.VerifSetupPosition()
 		case "hand":
+			r.policy = "r"
+			if len(f) > 1 {
+				r.policy = f[1]
+			}
 			err = r.t.VerifPrepareNextGame()
 		}
 		return nil
@@ -338,7 +351,7 @@ func (r *tbRunner) exec(f []string) {
 		for _, v := range r.be.finals {
 			xs = append(xs, itoa(v))
 		}
-		line = "tb hand " + joinList(xs, ",")
+		line = "tb hand " + joinList(xs, ",") + " " + r.policy
 	}
 	if pan {
 		r.dead = true
@@ -638,7 +651,11 @@ func (r *tbRunner) replay(lines []string) {
 			continue
 		}
 		if f[1] == "hand" {
-			r.exec([]string{"hand"})
+			if len(f) >= 4 {
+				r.exec([]string{"hand", f[3]})
+			} else {
+				r.exec([]string{"hand"})
+			}
 			continue
 		}
 		r.exec(f[1:])
@@ -710,7 +727,7 @@ func runTB(dir string, seed uint64, n int) {
 		line := fmt.Sprintf("tb new max=%d init=%d min=%d maxgames=%d leave=%s ante=%d dealer=%d sb=%d bb=%d short=%s seed=%d", max, initP, minP, maxGames, b01(leave), ante, bd, sb, bb, b01(short), hseed)
 		r.rng = NewRng(hseed)
 		r.start(kvs(strings.Fields(line)[2:]), line)
-		g := r.rng
+		g := NewRng(hseed ^ 0x5bd1e995) // the generator's own choices; r.rng drives the hands only, so that a recorded history replays exactly
 		steps := 10 + g.Intn(70)
 		crowd := g.Chance(0.5) // mostly full tables
 		for s := 0; s < steps && !r.dead; s++ {
@@ -813,4 +830,118 @@ func runTB(dir string, seed uint64, n int) {
 		}
 	}
 	o.Close(dir, "tb", seed)
+}
+
+// fixedPlay: the two deterministic ways a hand is played in the exhaustive histories.
+func fixedPlay(gs *pokerface.GameState, shove bool) opSpec {
+	switch gs.Status.CurrentEvent {
+	case "ReadyRequested":
+		return opSpec{kind: "ready", seat: -1}
+	case "AnteRequested":
+		return opSpec{kind: "ante", seat: -1}
+	case "BlindsRequested":
+		return opSpec{kind: "blinds", seat: -1}
+	case "RoundClosed":
+		return opSpec{kind: "next", seat: -1}
+	}
+	a := gs.Players[gs.Status.CurrentPlayer].AllowedActions
+	pick := []string{"check", "call", "allin", "pass"}
+	if shove {
+		pick = []string{"allin", "pass"}
+	}
+	for _, x := range pick {
+		if has(a, x) {
+			return opSpec{kind: "act", seat: -1, act: x}
+		}
+	}
+	return opSpec{kind: "act", seat: -1, act: "pass"}
+}
+
+// runTBExhaustive: small-scope exhaustive histories of the table glue (thorough tier).  Variant "fresh": every operation sequence
+// of length L on a fresh table of `max` seats over join (any seat and every seat), sit in / leave / reserve (every seat), the position
+// hand-off alone, and a whole hand played in two fixed ways (everybody shoves: somebody busts; checked / called down).  Variant
+// "preseated": the same from every table on which two or more players (3 chips each, blinds 1/2) sit and the first hand-off was made.
+// `leave` elimination mode on every second history.
+func runTBExhaustive(dir string, max, L, part, parts int, variant string) {
+	if f, err := os.OpenFile(os.DevNull, os.O_WRONLY, 0); err == nil {
+		stdout := os.Stdout
+		os.Stdout = f
+		defer func() { os.Stdout = stdout }()
+	}
+	o := NewOut(dir, "tbx")
+	var alphabet [][]string
+	for s := -1; s < max; s++ {
+		alphabet = append(alphabet, []string{"join", itoa(int64(s)), "PID", "3"})
+	}
+	for _, k := range []string{"activate", "leave", "reserve"} {
+		for s := 0; s < max; s++ {
+			alphabet = append(alphabet, []string{k, itoa(int64(s))})
+		}
+	}
+	alphabet = append(alphabet, []string{"setup"}, []string{"hand", "w"}, []string{"hand", "c"})
+	A := len(alphabet)
+	total := 1
+	for i := 0; i < L; i++ {
+		total *= A
+	}
+	starts := []int{0}
+	if variant == "preseated" {
+		starts = starts[:0]
+		for mask := 0; mask < 1<<max; mask++ {
+			c := 0
+			for i := 0; i < max; i++ {
+				c += mask >> i & 1
+			}
+			if c >= 2 {
+				starts = append(starts, mask)
+			}
+		}
+	}
+	idx := make([]int, L)
+	hist := 0
+	for si, mask := range starts {
+		for n := (part + parts - si%parts) % parts; n < total; n += parts {
+			x := n
+			for i := 0; i < L; i++ {
+				idx[i] = x % A
+				x /= A
+			}
+			hist++
+			r := &tbRunner{o: o}
+			line := fmt.Sprintf("tb new max=%d init=2 min=2 maxgames=0 leave=%d ante=0 dealer=0 sb=1 bb=2 short=0 seed=%d", max, hist%2, 7+n%1000)
+			r.rng = NewRng(uint64(7 + n%1000))
+			r.start(kvs(strings.Fields(line)[2:]), line)
+			pid := 100
+			if variant == "preseated" {
+				for i := 0; i < max; i++ {
+					if mask>>i&1 == 1 {
+						pid++
+						r.exec([]string{"join", itoa(int64(i)), itoa(int64(pid)), "3"})
+						r.exec([]string{"activate", itoa(int64(i))})
+					}
+				}
+				r.exec([]string{"setup"})
+			}
+			games := 0
+			for i := 0; i < L && !r.dead; i++ {
+				op := append([]string{}, alphabet[idx[i]]...)
+				if op[0] == "join" {
+					pid++
+					op[2] = itoa(int64(pid))
+				}
+				r.exec(op)
+				if op[0] == "hand" && r.be.opts != nil && r.be.err == nil {
+					games++
+				}
+			}
+			o.Count("tbx.histories")
+			o.Count(fmt.Sprintf("tbx.histories.%d_hands_played", games))
+		}
+	}
+	o.Stats["tbx.alphabet"] = A
+	o.Stats["tbx.length"] = L
+	o.Stats["tbx.max"] = max
+	o.Stats["tbx.starts"] = len(starts)
+	o.Sample(fmt.Sprintf("all %d^%d operation sequences on a table of %d seats from %d starting states (%s; part %d/%d); e.g. %s", A, L, max, len(starts), variant, part, parts, strings.Join(o.hist, " ; ")))
+	o.Close(dir, "tbx", uint64(part))
 }
